@@ -104,6 +104,22 @@ def profile_family(kind):
     if kind == "aniso_linear":
         f = lambda z: (2.0 + 0.5 * z, -1.0 - 0.2 * z, 2.0 * (0.2 + 0.3 * z), 0.5 * (0.2 + 0.3 * z), 0.2 + 0.3 * z)
         return f, 0.2, 5.0
+    if kind.startswith("random"):
+        # a seeded smooth positive family: power-law wind with a turning direction, diffusivities a + b z^q with different
+        # coefficients per axis
+        r = np.random.default_rng(int(kind[6:]))
+        a, b, pw = r.uniform(0.5, 3.0), r.uniform(0.2, 2.0), r.uniform(0.1, 0.9)
+        th0, th1 = r.uniform(0, 2 * np.pi), r.uniform(-0.6, 0.6)
+        kz0, kz1, q = r.uniform(0.02, 0.3), r.uniform(0.05, 0.6), r.uniform(0.5, 1.5)
+        fx, fy = r.uniform(0.5, 2.5), r.uniform(0.5, 2.5)
+        z0, ztop = float(r.uniform(0.02, 0.3)), float(r.uniform(3.0, 8.0))
+
+        def f(z):
+            sp = a + b * z ** pw
+            th = th0 + th1 * (z - z0) / (ztop - z0)
+            K = kz0 + kz1 * z ** q
+            return (sp * np.cos(th), sp * np.sin(th), fx * K, fy * K, K)
+        return f, z0, ztop
     raise KeyError(kind)
 
 
@@ -162,6 +178,7 @@ def grid_of(kind, z0, ztop, n):
 
 def convergence(chk, t, rng):
     fams = ["log_neutral", "power", "most_unstable", "most_stable", "aniso_linear"]
+    fams += ["random%d" % (1000 * seed() + k) for k in range(2 if t == "quick" else 24)]
     grids = ["uniform", "stretched"]
     # coarse and fine pairs: a scheme may behave on coarse grids and degrade on fine ones (thresholds on the change between
     # neighbouring nodes, accumulated rounding), so the refinement test is made at two very different resolutions
